@@ -298,10 +298,18 @@ RunLoop:
 				case code.OpCont:
 					var cont Cont
 					cont, err = Continue(t, val, c)
+					if err != nil {
+						// The arguments are evaluated before the call is
+						// attempted: the error is raised by the call.
+						cont, err = newFailedCallCont(c.Next(), c, err), nil
+					}
 					res = ContValue(cont)
 				case code.OpTailCont:
 					var cont Cont
 					cont, err = Continue(t, val, c.Next())
+					if err != nil {
+						cont, err = newFailedCallCont(c.Next(), c, err), nil
+					}
 					res = ContValue(cont)
 				case code.OpId:
 					res = val
